@@ -19,7 +19,13 @@ use cairo_vm::vm::runners::cairo_runner::RunResources;
 use num_bigint::BigInt;
 use starknet_types_core::felt::Felt as Felt252;
 
-pub const CORELIB: &str = "/repo/corelib/src";
+/// root of the tree under test ($VERIF_REPO, default /repo)
+pub fn repo() -> String {
+    std::env::var("VERIF_REPO").ok().filter(|s| !s.is_empty()).unwrap_or_else(|| "/repo".to_string())
+}
+pub fn corelib() -> String {
+    format!("{}/corelib/src", repo())
+}
 
 #[derive(Clone, Debug, PartialEq, Eq)]
 pub enum OptKind {
@@ -74,7 +80,7 @@ pub fn build_db(cfg: &Config) -> RootDatabase {
     };
     b.with_optimizations(opt);
     let mut db = b.build().expect("RootDatabase");
-    init_dev_corelib(&mut db, PathBuf::from(CORELIB));
+    init_dev_corelib(&mut db, PathBuf::from(corelib()));
     if let Some(k) = cfg.match_threshold {
         db.set_flag(
             FlagLongId(Flag::NUMERIC_MATCH_OPTIMIZATION_MIN_ARMS_THRESHOLD.into()),
